@@ -831,7 +831,7 @@ def check_wrappers(ctx, rs, sc, S, L_BFGS_B, minimize, maximize, LS):
                         else:                                # maximise -f  ==  minimise f
                             sol, info = maximize(nf, x0.copy(), gradfunc=ng, method=method).solve()
                 except Exception as e:
-                    k = f"{wname}:raises:" + (f"derivative-free:{method}" if method in DF else str(method))
+                    k = f"{wname}:raises:{method}"
                     ctx.fail(k, d, [ref["x"].tolist(), float(ref["fun"])], repr(e)[:100],
                              "wrapper raises instead of returning SciPy's result")
                     continue
@@ -931,6 +931,7 @@ def check_wrapper_kwargs(ctx, rs, sc, S, minimize, maximize):
           ("SLSQP", ["constraints"]), ("Newton-CG", ["hess"]), ("trust-ncg", ["hess", "options"]), ("BFGS", ["options", "callback"]),
           ("CG", ["tol"]), ("Nelder-Mead", ["bounds"]), ("COBYLA", ["constraints"])]
     pre = [f"mincall {w} {m if m is not None else 'None'} {hg} {','.join(k) if k else '_'}" for w in ("min", "max") for m, k in KW for hg in (0, 1)]
+    pre += [f"mininfo {a} {b_}" for a in (0, 1) for b_ in (0, 1)]
     for ln, out in zip(pre, ctx.lean.drive(pre)):
         _MC[ln] = out
     for rep in range(2 * sc):
@@ -1008,7 +1009,7 @@ def check_wrapper_kwargs(ctx, rs, sc, S, minimize, maximize):
                                 kk = mk(kw, cb_w)
                                 sol, info = maximize(nf, start.copy(), gradfunc=ng, method=method, **kk).solve()
                     except Exception as e:
-                        k = f"{wname}:raises:" + (f"derivative-free:{method}" if method in DF else f"kwargs:{cname}")
+                        k = f"{wname}:raises:kwargs:{cname}"
                         ctx.fail(k, desc, [ref["x"].tolist(), float(ref["fun"])], repr(e)[:100], "wrapper raises instead of returning SciPy's result")
                         continue
                     finally:
@@ -1022,8 +1023,12 @@ def check_wrapper_kwargs(ctx, rs, sc, S, minimize, maximize):
                     if mout != got_call:
                         bad.append(("call", mout, got_call))
                     # (b) every field equals the direct SciPy call
-                    for fld, a, b_ in (("x", sol, ref["x"]), ("func", info["func"], ref["fun"]), ("grad", info["grad"], ref.get("jac")),
-                                       ("nit", info["nit"], ref["nit"]), ("nfev", info["nfev"], ref["nfev"]),
+                    mn = model_info_none(ctx, ref)
+                    for fld, k_ in (("grad", "jac"), ("nit", "nit")):
+                        # reported by SciPy -> passed through; not reported (derivative-free methods) -> None, as in the model's table
+                        if not opt_same(info[fld], ref, k_) or (info[fld] is None) != mn[fld]:
+                            bad.append((fld, str(ref.get(k_, None))[:80], str(info[fld])[:80]))
+                    for fld, a, b_ in (("x", sol, ref["x"]), ("func", info["func"], ref["fun"]), ("nfev", info["nfev"], ref["nfev"]),
                                        ("success", info["success"], ref["success"]), ("message", info["message"], ref["message"])):
                         if not same_deep(a, b_):
                             bad.append((fld, str(b_)[:80], str(a)[:80]))
@@ -1059,9 +1064,22 @@ def model_lbfgsb(ctx, wf, hasgrad):
     return _LB[k]
 
 
+def model_info_none(ctx, ref):
+    """model's translation table: which info entries are None for a SciPy result with/without jac, nit"""
+    out = model_call(ctx, f"mininfo {int('jac' in ref)} {int('nit' in ref)}")
+    return {kv.split("=")[0]: kv.split("=")[1] == "none" for kv in out.split()}
+
+
+def opt_same(got, ref, key):
+    """field present in SciPy's result -> equal; absent -> must be None"""
+    return (got is None) if key not in ref else (got is not None and same_deep(got, ref[key]))
+
+
 def chk_info(ctx, key, d, sol, info, ref):
+    mn = model_info_none(ctx, ref)
     ok = same(sol, ref["x"]) and same(info["func"], ref["fun"]) and info["success"] == ref["success"] and info["message"] == ref["message"] \
-        and info["nit"] == ref["nit"] and info["nfev"] == ref["nfev"] and same(info["grad"], ref.get("jac"))
+        and opt_same(info["nit"], ref, "nit") and info["nfev"] == ref["nfev"] and opt_same(info["grad"], ref, "jac") \
+        and (info["grad"] is None) == mn["grad"] and (info["nit"] is None) == mn["nit"]
     if not ok:
         ctx.disagree(key, d, ref["x"].tolist(), np.asarray(sol).tolist(), "differs from direct SciPy call")
         ctx.fail(key, d, [ref["x"].tolist(), float(ref["fun"])], [np.asarray(sol).tolist(), float(info["func"])],
